@@ -530,6 +530,130 @@ def pair(rng, rel, mag=None):
     return t1, t2
 
 
+def strict_variant():
+    """does RelaxationNoise._T_to_list of the tree under test check the ENTRIES of a list (fixes/C15-3.patch)?  Read from the
+    source with ast: an `all(...)` / `any(...)` call or a loop / comprehension inside the function."""
+    import ast
+    from vlib import paths
+    tree = ast.parse(open(paths.REPO + "/src/qutip_qip/noise.py").read())
+    for cls in tree.body:
+        if isinstance(cls, ast.ClassDef) and cls.name == "RelaxationNoise":
+            for fn in cls.body:
+                if isinstance(fn, ast.FunctionDef) and fn.name == "_T_to_list":
+                    for n in ast.walk(fn):
+                        if isinstance(n, (ast.For, ast.GeneratorExp, ast.ListComp)):
+                            return True
+                        if isinstance(n, ast.Call) and isinstance(n.func, ast.Name) and n.func.id in ("all", "any"):
+                            return True
+                    return False
+    raise RuntimeError("RelaxationNoise._T_to_list not found in the source")
+
+
+_SV = []
+
+
+def sv():
+    """1 / 0: the `strict` flag of the driver for the tree under test (read once from the source)"""
+    if not _SV:
+        _SV.append(1 if strict_variant() else 0)
+    return _SV[0]
+
+
+ENTRY_POINTS = ["Processor", "OptPulseProcessor", "LinearSpinChain", "CircularSpinChain", "DispersiveCavityQED", "SCQubits",
+                "Model", "SpinChainModel", "CavityQEDModel", "SCQubitsModel"]
+
+
+def make_entry(name, N, t1, t2):
+    """every way a user hands t1 / t2 to a processor: the processor classes, and Processor(model=<Model class>(...)) where
+    the times travel through `params`"""
+    qutip = _impl()[0]
+    from qutip_qip import device
+    from qutip_qip.device.processor import Model
+    from qutip_qip.device.spinchain import SpinChainModel
+    from qutip_qip.device.cavityqed import CavityQEDModel
+    from qutip_qip.device.circuitqed import SCQubitsModel
+    if name == "Processor":
+        return device.Processor(N, t1=t1, t2=t2)
+    if name == "OptPulseProcessor":
+        return device.OptPulseProcessor(N, drift=qutip.tensor([qutip.sigmaz()] * N) * 0.0, t1=t1, t2=t2)
+    if name == "LinearSpinChain":
+        return device.LinearSpinChain(N, t1=t1, t2=t2)
+    if name == "CircularSpinChain":
+        return device.CircularSpinChain(N, t1=t1, t2=t2)
+    if name == "DispersiveCavityQED":
+        return device.DispersiveCavityQED(N, t1=t1, t2=t2)
+    if name == "SCQubits":
+        return device.SCQubits(N, t1=t1, t2=t2)
+    if name == "Model":
+        return device.Processor(model=Model(N, t1=t1, t2=t2))
+    if name == "SpinChainModel":
+        return device.Processor(model=SpinChainModel(N, "linear", t1=t1, t2=t2))
+    if name == "CavityQEDModel":
+        return device.Processor(model=CavityQEDModel(N, t1=t1, t2=t2))
+    if name == "SCQubitsModel":
+        return device.Processor(model=SCQubitsModel(N, t1=t1, t2=t2))
+    raise ValueError(name)
+
+
+_ENTRY_DIMS = {}
+
+
+def entry_dims(name, N):
+    """the subsystems of the entry point (the cavity-QED processor has a resonator in front of its qubits)"""
+    if (name, N) not in _ENTRY_DIMS:
+        with warnings.catch_warnings():
+            warnings.simplefilter("ignore")
+            _ENTRY_DIMS[(name, N)] = [int(d) for d in make_entry(name, N, None, None).dims]
+    return _ENTRY_DIMS[(name, N)]
+
+
+def form_value(form, T):
+    """T (None | Fraction | list of Fraction/None) in the requested Python form: scalar float / numpy float, list, ndarray"""
+    if T is None:
+        return None
+    if isinstance(T, list):
+        fl = [None if x is None else float(x) for x in T]
+        if form == "ndarray" and None not in fl:
+            return np.array(fl, dtype=float)
+        return fl
+    return np.float64(float(T)) if form == "npfloat" else float(T)
+
+
+def setup_alphabet(M, ok1, ok2):
+    """the small alphabet of the validation correspondence for M subsystems; ok1, ok2: a valid pair (t2 <= 2 t1).
+    -> list of (tag, t1, t2)"""
+    neg, zero, tiny = -ok1, Fraction(0), Fraction(1, 2 ** 40)
+    gt = 2 * ok1 + ok1 / 4
+    one = {
+        "none": None, "s-neg": neg, "s-zero": zero, "s-tiny": tiny, "s-ok": ok1,
+        "l-ok": [ok1 * (q + 1) for q in range(M)],
+        "l-neg": [ok1] * (M - 1) + [neg], "l-zero": [zero] + [ok1] * (M - 1), "l-none": [None] + [ok1] * (M - 1),
+        "l-short": [ok1] * (M - 1), "l-long": [ok1] * (M + 1),
+    }
+    two = {
+        "none": None, "s-neg": -ok2, "s-zero": zero, "s-tiny": tiny, "s-ok": ok2, "s-gt": gt, "s-boundary": 2 * ok1,
+        "l-ok": [ok2] * M, "l-neg": [ok2] * (M - 1) + [-ok2], "l-zero": [zero] + [ok2] * (M - 1),
+        "l-gt": [ok2] * (M - 1) + [gt], "l-short": [ok2] * (M - 1), "l-long": [ok2] * (M + 1),
+    }
+    return [(a + "/" + b, one[a], two[b]) for a in one for b in two]
+
+
+def property_verdict(M, t1, t2):
+    """C15 read directly: 'reject' (non-positive scalar, list of the wrong length, t2 > 2 t1 for a subsystem with both times),
+    'accept' (everything valid), 'entry' (right length but a non-positive ENTRY: nan/inf rates, the state cannot stay physical)"""
+    def bad_shape(T):
+        return (isinstance(T, list) and len(T) != M) or (T is not None and not isinstance(T, list) and T <= 0)
+    if bad_shape(t1) or bad_shape(t2):
+        return "reject"
+    l1 = t1 if isinstance(t1, list) else [t1] * M
+    l2 = t2 if isinstance(t2, list) else [t2] * M
+    if any(x is not None and x <= 0 for x in l1 + l2):
+        return "entry"
+    if any(a is not None and b is not None and b > 2 * a for a, b in zip(l1, l2)):
+        return "reject"
+    return "accept"
+
+
 SOL_TOL = 5e-8     # mesolve is run with atol 1e-12 / rtol 1e-10 (measured worst deviation ~6e-10)
 
 
@@ -555,6 +679,10 @@ class C15(PropertyCheck):
         "QipVerif.C15.C15_counterexample_orig",
         "QipVerif.C15.ops_per_subsystem",
         "QipVerif.C15.process_noise_collection",
+        "QipVerif.C15.validation_T_strict",
+        "QipVerif.C15.strict_agrees",
+        "QipVerif.C15.strict_no_nan",
+        "QipVerif.C15.C15_counterexample_list_entry",
         "QipVerif.C15.solves_iff_matrix_derivative",
         "QipVerif.C15.qubit_solution",
         "QipVerif.C15.qubit_solution_unique",
@@ -593,7 +721,10 @@ class C15(PropertyCheck):
                   "prefactors (1-3 subsystems of dimension 2/3, product / entangled / GHZ initial states, boundary, t1-only, "
                   "t2-only, lists and scalars; relaxation times from 1e-6 to 1e12 time units, mixed per subsystem, evaluated "
                   "at times scaled to every t1/t2; 5e-8).")
-    level_note = ("partial: proved for the idle processor with relaxation noise: rates, validation, the solution of the master "
+    level_note = ("entries of per-subsystem lists: the shipped _T_to_list does not check them (non-positive entry -> nan/inf collapse "
+                  "operators; proved on the model: C15_counterexample_list_entry; finding proposed with fixes/C15-3.patch); the model has "
+                  "both variants (strict flag read from the source of the tree under test), validation_T_strict / strict_no_nan "
+                  "describe the repaired one. partial: proved for the idle processor with relaxation noise: rates, validation, the solution of the master "
                   "equation, its uniqueness (single subsystem), validity of evolved states (single qubit / qutrit; qubit registers "
                   "with arbitrary joint states; product states of any two subsystems). NOT proved: that qutip.mesolve returns this "
                   "solution (numerical integrator: compared to 5e-8 on every check, not proved); uniqueness for several "
@@ -614,7 +745,8 @@ class C15(PropertyCheck):
         "QuTiP removes Liouvillian entries below settings.core['auto_tidyup_atol'] = 1e-14 (absolute): for squared prefactors below 1e-12 per time unit the oracle integrates with auto_tidyup off (solver convention outside the code under test; prefactors themselves are compared at full strength)",
         "py/props/c15.py (harness; exceptions canonicalised to {invalidT,t2gt2t1,zerodiv,index})",
     ]
-    assumptions = ["contract for construction histories: a processor keeps the relaxation times it was built with (the constructor copies them) until they are changed through its own t1/t2 attribute; containers handed to the t1/t2 SETTER or to RelaxationNoise(...) are kept by reference in the shipped code (candidate fixes/C15-2.patch) and are not edited afterwards by the generated histories",
+    assumptions = ["a ZERO entry of a per-subsystem list is modelled for Python floats (ZeroDivisionError); numpy floats give inf and go on - compared in list form only while the entries are unchecked (with fixes/C15-3.patch both forms are rejected and compared)",
+                   "contract for construction histories: a processor keeps the relaxation times it was built with (the constructor copies them) until they are changed through its own t1/t2 attribute; containers handed to the t1/t2 SETTER or to RelaxationNoise(...) are kept by reference in the shipped code (candidate fixes/C15-2.patch) and are not edited afterwards by the generated histories",
                    "relaxation times are Python floats or ints (numpy scalars behave identically after the patch; sampled)",
                    "idle processor (no control pulses) for the decay laws"]
     rule = ("relaxation times span 1e-6 ... 1e12 time units (10-bit dyadic mantissa x 10^k or 2^e, magnitudes independent per "
@@ -627,6 +759,8 @@ class C15(PropertyCheck):
             "mixed, GHZ}) with mesolve's rho(t) at 4 times against the explicit solution with the model's prefactors; the "
             "explicit targets = every ordered non-empty subset of the subsystems with per-subsystem lists, RelaxationNoise used "
             "directly and via Processor.add_noise (oracle kind 'targets': one object, repeated uses, other processor sizes); the "
+            "validation = every processor entry point (6 processor classes + Processor(model=<4 Model classes>)) x exhaustive alphabet of "
+            "11 x 13 (t1, t2) values and forms (float / numpy float / list / ndarray), verdict and operators; "
             "construction histories = several processors built from the same t1/t2 containers (list/ndarray/scalar), in-place edits "
             "of the caller's container and of other processors' t1/t2, own edits and re-assignments, simulations in between; the "
             "property oracle additionally replays histories (one processor, 0-2 extra noise objects, 1-3 requests)")
@@ -634,10 +768,10 @@ class C15(PropertyCheck):
     # ---------------------------------------------------------------------------------
     def _compare(self, ctx, res, via, dims, t1, t2, targets=None, specs=(), device=True, numpy_float=False, tags=()):
         if via == "noise":
-            line = f"relax fixed=1 dims={','.join(map(str, dims))} t1={enc_T(t1)} t2={enc_T(t2)} targets={enc_targets(targets)}"
+            line = f"relax fixed=1 strict={sv()} dims={','.join(map(str, dims))} t1={enc_T(t1)} t2={enc_T(t2)} targets={enc_targets(targets)}"
         else:
             _, _, encn = build_noises(specs)
-            line = (f"process fixed=1 dims={','.join(map(str, dims))} t1={enc_T(t1)} t2={enc_T(t2)} "
+            line = (f"process fixed=1 strict={sv()} dims={','.join(map(str, dims))} t1={enc_T(t1)} t2={enc_T(t2)} "
                     f"device={1 if device else 0} noises={encn}")
         model = ctx.driver("drv_noise").run([line])[0]
         mst, mels = parse_model(model)
@@ -710,7 +844,7 @@ class C15(PropertyCheck):
     def _solution_case(self, ctx, res, dims, t1, t2, kind, seed, tags=(), targets=None):
         """mesolve on the implementation's (H, c_ops) against the explicit solution (Lean: relaxSol2 / relaxSol3 / regSol)
         evaluated with the MODEL's squared prefactors, for an arbitrary initial density matrix, at 4 times"""
-        line = f"relax fixed=1 dims={','.join(map(str, dims))} t1={enc_T(t1)} t2={enc_T(t2)} targets={enc_targets(targets)}"
+        line = f"relax fixed=1 strict={sv()} dims={','.join(map(str, dims))} t1={enc_T(t1)} t2={enc_T(t2)} targets={enc_targets(targets)}"
         model = ctx.driver("drv_noise").run([line])[0]
         mst, mels = parse_model(model)
         inp = {"via": "solution", "dims": dims, "t1": json_T(t1), "t2": json_T(t2), "state": kind, "seed": seed}
@@ -746,6 +880,137 @@ class C15(PropertyCheck):
                              f"mesolve's state differs from the explicit solution by {err:.3g}", wit)
                 return
 
+    def _setup_block(self, ctx, res):
+        """verdict (and, when accepted, the Lindblad operators) of every entry point against the model, for the alphabet
+        {None, negative, 0, tiny, ok, t2 > 2 t1, boundary, lists: ok / negative entry / zero entry / None entry / too short /
+        too long} x forms {float, numpy float, list, ndarray}, observed at set-up (get_noisy_pulses / get_qobjevo)"""
+        rng = ctx.rng
+        strict = strict_variant()
+        N = 2
+        k = 0
+        for name in ENTRY_POINTS:
+            dims = entry_dims(name, N)
+            M = len(dims)
+            ok1, ok2 = pair(rng, "inside", Fraction(1))
+            for tag, t1, t2 in setup_alphabet(M, ok1, ok2):
+                k += 1
+                if not ctx.thorough and name in ("CircularSpinChain", "SpinChainModel", "CavityQEDModel") and k % 3:
+                    continue
+                form = ("list", "ndarray", "npfloat")[k % 3]
+                if "zero" in tag and not strict:
+                    # a zero ENTRY: Python floats raise ZeroDivisionError (modelled), numpy floats give inf and go on -
+                    # without the entry check the model speaks about Python floats only (see `assumptions`)
+                    form = "list"
+                how = ("pulses", "qobjevo")[k % 2]
+                self._setup_case(ctx, res, strict, name, N, dims, t1, t2, form, how, tag)
+        res.notes.append("validation: every processor entry point (Processor, OptPulseProcessor, LinearSpinChain, CircularSpinChain, "
+                         "DispersiveCavityQED, SCQubits and Processor(model=Model / SpinChainModel / CavityQEDModel / SCQubitsModel)) x "
+                         "alphabet of 11 x 13 (t1, t2) forms and values, verdict and operators against the model "
+                         f"(_T_to_list variant read from the source: entries {'checked' if strict else 'not checked'})")
+
+    def _setup_case(self, ctx, res, strict, name, N, dims, t1, t2, form, how, tag):
+        line = (f"relax fixed=1 strict={1 if strict else 0} dims={','.join(map(str, dims))} t1={enc_T(t1)} t2={enc_T(t2)} "
+                f"targets=none")
+        model = ctx.driver("drv_noise").run([line])[0]
+        mst, mels = parse_model(model)
+        inp = {"via": "setup", "entry": name, "n": N, "t1": json_T(t1), "t2": json_T(t2), "form": form, "how": how}
+        res.case(inp, nontrivial=(t1 is not None or t2 is not None),
+                 tags=["setup", "entry=" + name, "alphabet=" + tag, "form=" + form, "verdict=" + mst.split(":")[0]])
+        wit = {"kind": "setup", "entry": name, "n": N, "t1": json_T(t1), "t2": json_T(t2), "form": form, "how": how}
+        with warnings.catch_warnings():
+            warnings.simplefilter("ignore")
+            try:
+                p = make_entry(name, N, form_value(form, t1), form_value(form, t2))
+                els = p.get_noisy_pulses(device_noise=True)[-1].lindblad_noise
+                if how == "qobjevo":
+                    p.get_qobjevo(noisy=True)
+                ist = "ok"
+            except Exception as e:  # canonicalised
+                ist = classify_exc(e)
+        if mst != ist:
+            res.disagree(inp, model, "err " + ist if ist != "ok" else "ok", f"verdict of the set-up through {name}", wit)
+            return
+        if mst != "ok":
+            return
+        got = [canon_element(e, []) for e in els]
+        if len(got) != len(mels):
+            res.disagree(inp, model, str([(tg, kd, d, c) for tg, kd, d, c, _ in got]), f"number of Lindblad operators through {name}", wit)
+            return
+        M = len(dims)
+        l2 = t2 if isinstance(t2, list) else [t2] * M
+        for (mt, mk, md, mr), (it, ik, idim, ic, probs) in zip(mels, got):
+            band = 2 / abs(float(l2[mt[0]])) if (mk == "num" and l2[mt[0]]) else 0.0
+            same = (mr == "nan" and ic == "nan") or (mr != "nan" and ic != "nan"
+                                                       and abs(ic - float(mr)) <= 1e-12 * (abs(float(mr)) + band))
+            if probs or mt != it or mk != ik or md != idim or not same:
+                res.disagree(inp, model, str([(tg, kd, d, c) for tg, kd, d, c, _ in got]),
+                             f"Lindblad operator through {name}: {ik} on {it} prefactor^2 {ic!r}, model {mk} on {mt}: {mr}", wit)
+                return
+
+    def _setup(self, ctx, w):
+        """the validation clause of C15 at one entry point, judged by the property alone: invalid times must raise when the
+        simulation is set up (get_noisy_pulses / get_qobjevo / the start of run_state), valid ones must be accepted, and an
+        accepted configuration must not contain a non-finite collapse operator"""
+        qutip = _impl()[0]
+        name, N = w["entry"], int(w["n"])
+        dims = entry_dims(name, N)
+        M = len(dims)
+        t1, t2 = unjson_T(w["t1"]), unjson_T(w["t2"])
+        v = property_verdict(M, t1, t2)
+        how = w.get("how", "qobjevo")
+        c_ops = None
+        try:
+            p = make_entry(name, N, form_value(w.get("form", "list"), t1), form_value(w.get("form", "list"), t2))
+            if how == "pulses":
+                p.get_noisy_pulses(device_noise=True)
+            if how == "run":
+                d0 = qutip.basis(dims, [0] * M)
+                p.run_state(d0, tlist=[0.0, 1e-3 * float(min([abs(x) for T in (t1, t2) if T is not None
+                                                               for x in (T if isinstance(T, list) else [T]) if x] or [1]))],
+                            options={"nsteps": 2000})
+            _, c_ops = p.get_qobjevo(noisy=True)
+            raised = None
+        except Exception as e:
+            raised = e
+        desc = f"{name}({N}, t1={json_T(t1)}, t2={json_T(t2)}) [{w.get('form', 'list')}, {how}]"
+        if v == "reject":
+            if raised is None:
+                bad = [c for c in c_ops if not np.all(np.isfinite(c(0).full()))]
+                return True, (f"{desc}: invalid relaxation times accepted at set-up"
+                              + (f" ({len(bad)} collapse operator(s) with nan/inf entries)" if bad else ""))
+            if not isinstance(raised, ValueError):
+                return True, f"{desc}: invalid relaxation times are not rejected by the validation but fail with {type(raised).__name__}: {str(raised)[:80]}"
+            return False, f"rejected (ValueError)"
+        if v == "accept":
+            if raised is not None:
+                return True, f"{desc}: valid relaxation times rejected: {type(raised).__name__}: {str(raised)[:80]}"
+            if any(not np.all(np.isfinite(c(0).full())) for c in c_ops):
+                return True, f"{desc}: valid relaxation times give a non-finite collapse operator"
+            return False, "accepted, finite collapse operators"
+        # a non-positive ENTRY of a list of the right length
+        if raised is not None:
+            return (False, "non-positive list entry rejected at set-up") if isinstance(raised, ValueError) else \
+                (True, f"{desc}: non-positive list entry fails with {type(raised).__name__}: {str(raised)[:80]}")
+        bad = [c for c in c_ops if not np.all(np.isfinite(c(0).full()))]
+        if bad:
+            return True, (f"{desc}: a non-positive entry of a per-subsystem list is accepted at set-up and {len(bad)} collapse "
+                          f"operator(s) handed to the solver have nan/inf entries (no physical state can result)")
+        return False, "accepted, all collapse operators finite"
+
+    def _setup_witness(self, rng, entries_too=False):
+        name = rng.choice(ENTRY_POINTS)
+        N = rng.choice([1, 2, 2, 3]) if name not in ("CircularSpinChain",) else rng.choice([2, 3])
+        if name in ("SCQubits", "SCQubitsModel", "DispersiveCavityQED", "CavityQEDModel", "LinearSpinChain", "SpinChainModel") and N < 2:
+            N = 2
+        M = len(entry_dims(name, N))
+        ok1, ok2 = pair(rng, rng.choice(["inside", "boundary", "near"]))
+        for _ in range(200):
+            tag, t1, t2 = rng.choice(setup_alphabet(M, ok1, ok2))
+            if entries_too or property_verdict(M, t1, t2) != "entry":
+                break
+        return {"kind": "setup", "entry": name, "n": N, "t1": json_T(t1), "t2": json_T(t2),
+                "form": rng.choice(["list", "ndarray", "npfloat"]), "how": rng.choice(["pulses", "qobjevo", "qobjevo", "run"])}
+
     def _build_case(self, ctx, res, w):
         dims = w["dims"]
         inp = {"via": "build", "dims": dims, "containers": w["containers"], "ops": w["ops"]}
@@ -755,7 +1020,7 @@ class C15(PropertyCheck):
             warnings.simplefilter("ignore")
             try:
                 for k, pid, how, p, e1, e2 in build_history(w):
-                    line = (f"process fixed=1 dims={','.join(map(str, dims))} t1={enc_T(e1)} t2={enc_T(e2)} device=1 noises=-")
+                    line = (f"process fixed=1 strict={sv()} dims={','.join(map(str, dims))} t1={enc_T(e1)} t2={enc_T(e2)} device=1 noises=-")
                     model = ctx.driver("drv_noise").run([line])[0]
                     mst, mels = parse_model(model)
                     els = [canon_element(e, []) for e in p.get_noisy_pulses(device_noise=True)[-1].lindblad_noise]
@@ -1005,6 +1270,8 @@ class C15(PropertyCheck):
         res.notes.append("construction histories: 2-3 processors from the same t1/t2 containers (list / ndarray / scalar), in-place "
                          "edits of the caller's container and of another processor's t1/t2, own in-place edits and "
                          "re-assignments; Lindblad operators of each simulated processor against the model for its own times")
+        # validation at EVERY processor entry point: exhaustive over a small alphabet of (t1, t2) forms and values
+        self._setup_block(ctx, res)
         # malformed stream
         for t in range(400 if ctx.thorough else 120):
             dims = rng.choice(all_dims)
@@ -1054,6 +1321,8 @@ class C15(PropertyCheck):
                 return self._targets(ctx, w)
             if kind == "build":
                 return self._build(ctx, w)
+            if kind == "setup":
+                return self._setup(ctx, w)
             dims = w["dims"]
             N = len(dims)
             t1, t2 = unjson_T(w["t1"]), unjson_T(w["t2"])
@@ -1513,6 +1782,12 @@ class C15(PropertyCheck):
                  {"kind": "reject", "dims": [2], "t1": "1", "t2": "5/2"},
                  {"kind": "reject", "dims": [2], "t1": "0", "t2": None},
                  {"kind": "reject", "dims": [2, 2], "t1": ["1"], "t2": None}]
+        first += [{"kind": "setup", "entry": e, "n": 2, "t1": a, "t2": b, "form": "list", "how": h}
+                  for e in ENTRY_POINTS for a, b, h in (("-1", None, "qobjevo"), (None, "0", "pulses"), ("50", "-20", "run"),
+                                                        ("50", "20", "run"), ("1", "5/2", "qobjevo"))]
+        if strict_variant():
+            first += [{"kind": "setup", "entry": e, "n": 2, "t1": ["1", "-1"] + ([] if len(entry_dims(e, 2)) == 2 else ["1"]),
+                       "t2": None, "form": f, "how": "qobjevo"} for e in ENTRY_POINTS for f in ("list", "ndarray")]
         for w in first:
             f, d = self.oracle_replay(ctx, w)
             if f:
@@ -1520,6 +1795,7 @@ class C15(PropertyCheck):
         while time.time() - t0 < budget_s:
             w = ctx.rng.choice([self._decay_witness, self._solution_witness, self._history_witness, self._history_witness,
                                 self._targets_witness, self._build_witness, self._reject_witness,
+                                (lambda r: self._setup_witness(r, strict_variant())),
                                 self._physical_witness])(ctx.rng)
             try:
                 f, d = self.oracle_replay(ctx, w)
@@ -1552,6 +1828,9 @@ class C15(PropertyCheck):
         ws += [{"kind": "solution", "dims": [2, 2], "t1": ["1", "2"], "t2": ["2", "1"], "state": "ghz", "seed": 4}]
         ws += [self._solution_witness(ctx.rng) for _ in range(12 if ctx.thorough else 5)]
         ws += [self._reject_witness(ctx.rng) for _ in range(12 if ctx.thorough else 6)]
+        ws += [{"kind": "setup", "entry": e, "n": 2, "t1": a, "t2": b, "form": "npfloat", "how": "qobjevo"}
+               for e in ENTRY_POINTS for a, b in (("-1", None), ("50", "-20"))]
+        ws += [self._setup_witness(ctx.rng, strict_variant()) for _ in range(30 if ctx.thorough else 12)]
         ws += [self._physical_witness(ctx.rng) for _ in range(10 if ctx.thorough else 3)]
         ws += [{"kind": "history", "dims": [2], "t1": "1", "t2": "3/2", "noises": [["C"]], "calls": ["qobjevo", "run"], "drive": True}]
         ws += [self._history_witness(ctx.rng) for _ in range(20 if ctx.thorough else 6)]
